@@ -240,4 +240,244 @@ class CombineModules(Harness):
         return cl
 
 
-HARNESSES = [BuildModules(), CombineModules()]
+def _idx(names):
+    return [NAMES.index(nm) for nm in sorted(names) if nm in NAMES]
+
+
+class ModuleStep(Harness):
+    """one inductive step of module construction from an ARBITRARY module state: the state a module can be in is described by its
+    slots (starter, loader, modifications, carrier protein, end, others, pending look-ahead acceptance, first-in-gene flag); each
+    occupied slot holds a component with a symbolic name of the right class. One more component with a symbolic name over the
+    whole alphabet (and a symbolic look-ahead) is added. Either it is refused and nothing changes, or it lands in exactly its
+    slot and was allowed there by the documented layout; completeness is the documented function of the slots. Sequences of
+    any length are sequences of such steps (build_modules_for_cds itself - opening a new module at a starter or after a
+    refusal - is covered by build_modules on short sequences)."""
+    pid, name = "C14", "module_step"
+    functions = [MI + "Module.add_component", MI + "Module.ensure_suitable", MI + "Module.is_complete", MI + "Module.is_trans_at",
+                 MI + "Module.is_pks", MI + "Component", MI + "classify"]
+    bound = ("any module state given by its slots: starter none / pure starter / loader acting as starter, separate loader, 0-1 "
+             "modification, carrier protein, end, 0-1 other or special component, first-in-gene flag symbolic, no pending look-ahead "
+             "or the two pending states of the double carrier protein case; every occupied slot has a symbolic name of its class, "
+             "KS subtype symbolic; the added component and two look-ahead components have symbolic names over the full alphabet")
+    outside = ("more than one modification / other component in the state (only their presence and the Trans-AT docking domain among "
+               "the others are ever read); that the state invariants used as preconditions (a loader never without a starter, no "
+               "NRPS/PKS mix between starter and loader, a pending look-ahead only right after the second carrier protein) are "
+               "established by construction from the empty module (they are the conclusions of this same step)")
+    stubs = BuildModules.stubs + ["look-ahead components are name carriers (only .domain.hit_id is read from them)"]
+    task_paths = 200
+
+    CLASSES = None
+
+    @classmethod
+    def classes(cls):
+        if cls.CLASSES is None:
+            pure = (set(mi.CONDENSATIONS) | set(mi.KETOSYNTHASES) | set(mi.ALTERNATE_STARTERS)) - {"CAL_domain"}
+            loaders = set(mi.ADENYLATIONS) | set(mi.ACYLTRANSFERASES) | {"CAL_domain"}
+            cls.CLASSES = {"pure": _idx(pure), "loader": _idx(loaders), "mod": _idx(mi.MODIFIERS), "cp": _idx(mi.CARRIER_PROTEINS),
+                           "end": _idx(mi.ENDS), "other": _idx(set(mi.OTHER) | set(mi.SPECIAL)), "ignore": _idx(mi.NON_MODULE),
+                           "special": _idx(mi.SPECIAL),
+                           "pks": [i for i, nm in enumerate(NAMES) if nm.startswith("PKS") or nm in mi.ACYLTRANSFERASES
+                                   or nm in mi.KETOSYNTHASES],
+                           "nrps": _idx(set(mi.ADENYLATIONS) | set(mi.CONDENSATIONS))}
+        return cls.CLASSES
+
+    def variants(self, tier):
+        out = []
+        for st in ("none", "pure", "loader"):
+            for ld in ((False, True) if st == "pure" else (False,)):
+                for mod in (False, True):
+                    for cp in (False, True):
+                        for oth in (False, True):
+                            out.append({"st": st, "ld": ld, "mod": mod, "cp": cp, "end": False, "oth": oth, "accept": 0})
+        # a finished module; the two pending states of the double carrier protein look-ahead
+        out.append({"st": "pure", "ld": True, "mod": False, "cp": True, "end": True, "oth": False, "accept": 0})
+        out.append({"st": "none", "ld": False, "mod": False, "cp": True, "end": True, "oth": True, "accept": 0})
+        out.append({"st": "pure", "ld": True, "mod": False, "cp": True, "end": False, "oth": "cp2", "accept": 2})
+        out.append({"st": "pure", "ld": True, "mod": "lpg", "cp": True, "end": False, "oth": "cp2", "accept": 1})
+        return out
+
+    def vars(self, var):
+        d = {"first": "bool", "c": "int", "cs": "int", "l0": "int", "l1": "int"}
+        for key, present in (("st", var["st"] != "none"), ("ld", var["ld"]), ("m0", var["mod"]), ("cp", var["cp"]), ("en", var["end"]),
+                             ("o0", var["oth"])):
+            if present:
+                d[key] = "int"
+        if var["st"] != "none":
+            d["sts"] = "int"
+        return d
+
+    def member(self, x, cls):
+        return L.Or([x == i for i in self.classes()[cls]])
+
+    def pre(self, var, v):
+        ks = NAMES.index("PKS_KS")
+        c = [0 <= v["c"], v["c"] < len(NAMES), 0 <= v["cs"], v["cs"] <= 2, L.Or(v["cs"] == 0, v["c"] == ks),
+             0 <= v["l0"], v["l0"] < len(NAMES), 0 <= v["l1"], v["l1"] < len(NAMES)]
+        if var["st"] != "none":
+            c += [self.member(v["st"], "pure" if var["st"] == "pure" else "loader"), 0 <= v["sts"], v["sts"] <= 2,
+                  L.Or(v["sts"] == 0, v["st"] == ks)]
+        if var["ld"]:
+            c.append(self.member(v["ld"], "loader"))
+            # established by the step that added the loader: no NRPS / PKS mix with the starter
+            c.append(L.Not(L.Or(L.And(self.member(v["st"], "pks"), self.member(v["ld"], "nrps")),
+                                L.And(self.member(v["st"], "nrps"), self.member(v["ld"], "pks")))))
+        if var["mod"]:
+            c.append(v["m0"] == NAMES.index("LPG_synthase_C") if var["mod"] == "lpg" else self.member(v["m0"], "mod"))
+        if var["cp"]:
+            c.append(self.member(v["cp"], "cp"))
+        if var["end"]:
+            c.append(self.member(v["en"], "end"))
+        if var["oth"]:
+            c.append(self.member(v["o0"], "cp" if var["oth"] == "cp2" else "other"))
+        # a pending look-ahead acceptance was granted on a truthful look-ahead: the announced components do follow
+        if var["accept"] == 2:
+            c += [v["c"] == NAMES.index("LPG_synthase_C"), v["l0"] == NAMES.index("Beta_elim_lyase")]
+        if var["accept"] == 1:
+            c.append(v["c"] == NAMES.index("Beta_elim_lyase"))
+        return L.And(c)
+
+    def sym_name(self, idx):
+        if L.issym(idx):
+            from ..core import SymName
+            return SymName(idx, NAMES)
+        return NAMES[idx]
+
+    def component(self, v, key, sub=0):
+        name = self.sym_name(v[key])
+        internal = None
+        if sub == 1:
+            internal = [HMMResult("Trans-AT-KS", 0, 5, 1e-5, 10.)]
+        elif sub == 2:
+            internal = [HMMResult("Iterative-KS", 0, 5, 1e-5, 10.)]
+        return mi.Component(HMMResult(name, 0, 5, 1e-5, 10., internal_hits=internal), "cds")
+
+    def run(self, var, v):
+        if L.issym(v["c"]):
+            wrap_constants()
+        module = mi.Module(first_in_cds=True if v["first"] else False)
+        comps = []
+        if var["st"] != "none":
+            module._starter = self.component(v, "st", v["sts"])
+            comps.append(module._starter)
+            if var["st"] == "loader":
+                module._loader = module._starter
+        if var["ld"]:
+            module._loader = self.component(v, "ld")
+            comps.append(module._loader)
+        if var["mod"]:
+            module._modifications.append(self.component(v, "m0"))
+            comps.append(module._modifications[0])
+        if var["cp"]:
+            module._carrier_protein = self.component(v, "cp")
+            comps.append(module._carrier_protein)
+        if var["oth"]:
+            module._others.append(self.component(v, "o0"))
+            comps.append(module._others[0])
+        if var["end"]:
+            module._end = self.component(v, "en")
+            comps.append(module._end)
+        module._components = list(comps)
+        module._unambiguous_accept = var["accept"]
+
+        def slots():
+            return (module._starter, module._loader, list(module._modifications), module._carrier_protein, module._end,
+                    list(module._others), list(module._components))
+        before = slots()
+        trans_at_before = True if module.is_trans_at() else False
+        new = self.component(v, "c", v["cs"])
+        # of the look-ahead only the names are ever read (building real components would classify them first)
+        from types import SimpleNamespace
+        lookahead = [SimpleNamespace(domain=SimpleNamespace(hit_id=self.sym_name(v[key]))) for key in ("l0", "l1")]
+        try:
+            module.add_component(new, lookahead)
+            refused = False
+        except mi.IncompatibleComponentError:
+            refused = True
+        after = slots()
+        same = all((a is b) if not isinstance(a, list) else (len(a) == len(b) and all(x is y for x, y in zip(a, b)))
+                   for a, b in zip(before, after))
+        where = []
+        if not refused:
+            if after[0] is new:
+                where.append("starter")
+            if after[1] is new:
+                where.append("loader")
+            if any(x is new for x in after[2]):
+                where.append("mod")
+            if after[3] is new:
+                where.append("cp")
+            if after[4] is new:
+                where.append("end")
+            if any(x is new for x in after[5]):
+                where.append("other")
+        others_kept = all(any(a is b for b in after[6]) for a in before[6]) and len(after[6]) == len(before[6]) + (1 if any(x is new for x in after[6]) else 0)
+        return {"refused": refused, "unchanged": same, "where": where, "appended": any(x is new for x in after[6]),
+                "others_kept": others_kept, "complete": True if module.is_complete() else False,
+                "trans_at_before": trans_at_before, "trans_at": True if module.is_trans_at() else False,
+                "accept_after": module._unambiguous_accept}
+
+    def post(self, var, v, out):
+        if is_raised(out):
+            return [("no_other_exception", False)]
+        c = v["c"]
+        M = self.member
+        pure, loader, mod, cpc, end = M(c, "pure"), M(c, "loader"), M(c, "mod"), M(c, "cp"), M(c, "end")
+        ignored, special = M(c, "ignore"), M(c, "special")
+        has_st, has_ld = var["st"] != "none", var["ld"] or var["st"] == "loader"
+        has_mod, has_cp, has_end, has_comps = bool(var["mod"]), var["cp"], var["end"], any([has_st, var["mod"], var["cp"], var["end"], var["oth"]])
+        lpg, beta = NAMES.index("LPG_synthase_C"), NAMES.index("Beta_elim_lyase")
+        double_cp = L.And(v["l0"] == lpg, v["l1"] == beta)
+        kr = c == NAMES.index("PKS_KR")
+        mix = False
+        if has_st:
+            mix = L.Or(L.And(M(v["st"], "pks"), M(c, "nrps")), L.And(M(v["st"], "nrps"), M(c, "pks")))
+        # what the documented layout allows in this state
+        if var["accept"]:
+            allowed = True            # announced by the look-ahead that was accepted with the second carrier protein
+        else:
+            allowed = L.Or(ignored, special,
+                           L.And(not has_end,
+                                 L.Or(L.And(pure, not has_comps),
+                                      L.And(loader, not has_ld, not has_cp, not has_mod, L.Not(mix)),
+                                      L.And(mod, L.Or(not has_cp, L.And(out["trans_at_before"], kr))),
+                                      L.And(cpc, L.Or(not has_cp, double_cp)),
+                                      end,
+                                      L.Not(L.Or(pure, loader, mod, cpc, end)))))
+        cl = [("refused_iff_the_layout_forbids_it", L.Iff(out["refused"], L.Not(allowed))),
+              ("a_refusal_changes_nothing", L.Implies(out["refused"], out["unchanged"])),
+              ("earlier_components_kept_in_order", out["others_kept"])]
+        if not out["refused"]:
+            cl.append(("ignored_domains_are_left_out", L.Iff(out["appended"], L.Not(ignored))))
+            # the slot the component lands in
+            w = out["where"]
+            becomes_starter = L.And(L.Or(pure, loader), not has_st)
+            cl.append(("lands_in_its_slot", L.And(
+                L.Iff("starter" in w, becomes_starter),
+                L.Iff("loader" in w, L.And(loader, not has_ld)),
+                L.Iff("mod" in w, L.And(mod, L.Not(L.Or(pure, loader)))),
+                L.Iff("cp" in w, L.And(cpc, not has_cp)),
+                L.Iff("end" in w, end),
+                L.Iff("other" in w, L.Or(L.And(cpc, has_cp), L.And(L.Not(L.Or(pure, loader, mod, cpc, end, ignored))))))))
+            # completeness: documented function of the slots after the step
+            st_after = L.Or(has_st, becomes_starter)
+            ld_after = L.Or(has_ld, L.And(loader, not has_ld))
+            cp_after = L.Or(has_cp, cpc)
+            loader_is_starter = (var["st"] == "loader") if has_st else loader
+            blocked = L.And(st_after, loader_is_starter, L.Not(v["first"]))
+            complete = L.And(L.Not(blocked), L.Or(L.And(st_after, ld_after, cp_after), L.And(out["trans_at"], cp_after)))
+            cl.append(("complete_iff_starter_loader_carrier", L.Iff(out["complete"], complete)))
+            cl.append(("look_ahead_granted_only_for_the_double_carrier_protein",
+                       L.Implies(out["accept_after"] > 0 if not var["accept"] else False, L.And(cpc, has_cp, double_cp))))
+        return cl
+
+    def klass(self, var, out):
+        if is_raised(out):
+            return "raised:" + out.etype
+        return "refused" if out["refused"] else "added"
+
+    def expected_classes(self, var):
+        empty = var["st"] == "none" and not (var["mod"] or var["cp"] or var["end"] or var["oth"])
+        return {"added"} if var["accept"] or empty else {"refused", "added"}
+
+
+HARNESSES = [BuildModules(), CombineModules(), ModuleStep()]
